@@ -921,7 +921,28 @@ func (s fset) callAny(name string) bool {
 // alone, apart from facts accepted by `allowed` and apart from earlier exits that
 // are rejections themselves. An added conjunct (`i > 0 && …`), an enclosing
 // condition or an earlier `continue` makes the rejection partial and fails.
-func (v *FnView) rejectsWhen(scope ast.Node, pred func(Fact) bool, allowed func(Fact) bool) bool {
+func (v *FnView) rejectsWhen(scope ast.Node, pred0 func(Fact) bool, allowed0 func(Fact) bool) bool {
+	// a fact counts as matching if it, its mirrored comparison, or the condition a boolean alias stands for matches
+	expand := func(f Fact) []Fact { return mirrorFacts(v.expandBoolAliases([]Fact{f})) }
+	pred := func(f Fact) bool {
+		for _, e := range expand(f) {
+			if pred0(e) {
+				return true
+			}
+		}
+		return false
+	}
+	var allowed func(Fact) bool
+	if allowed0 != nil {
+		allowed = func(f Fact) bool {
+			for _, e := range expand(f) {
+				if allowed0(e) {
+					return true
+				}
+			}
+			return false
+		}
+	}
 	found := false
 	ast.Inspect(scope, func(n ast.Node) bool {
 		if _, isLit := n.(*ast.FuncLit); isLit {
@@ -984,7 +1005,7 @@ func (v *FnView) rejectsWhen(scope ast.Node, pred func(Fact) bool, allowed func(
 			return true
 		}
 		// earlier exits in scope that are not rejections restrict the rejection
-		for _, f := range v.FactsAt(rs, false) {
+		for _, f := range v.factsAt(rs, false) {
 			ifs, isIf := f.At.(*ast.IfStmt)
 			if !isIf || contains[ifs] || ifs.Pos() < scope.Pos() || ifs.End() > scope.End() {
 				continue
